@@ -27,6 +27,7 @@ class Ob:
     props: frozenset[str]
     nontrivial: bool = True
     exception: str | None = None  # reason if suppressed by the exception table
+    firm: bool = False  # a failing verdict that rests on positive evidence (never "not decided")
 
     def sample(self) -> dict:
         return {
@@ -50,6 +51,11 @@ class RuleSpec:
 
 
 RULES: dict[str, RuleSpec] = {}
+
+# Rules whose verdict is about the call graph itself, or that follow calls transitively by
+# construction (effect closures): a new private callee is part of what they judge, never a
+# reason not to decide.
+FOLLOWS_CALLS = {"LAZY-ENTRY-1", "LAZY-CREATE-1", "TASK-PURE-1", "OWN-MUT-1", "COPY-MUT-1", "RESUME-PURE-1", "ASSERT-1"}
 
 # (rule, construct[:selector]) -> one line of reason.  Never wider than one named symbol.
 EXCEPTIONS: dict[tuple[str, str], str] = {}
@@ -95,6 +101,7 @@ class Ctx:
         key_node: ast.AST | None = None,
         nontrivial: bool = True,
         loc: str | None = None,
+        firm: bool = False,
     ) -> bool:
         construct = where.qual if isinstance(where, Def) else where
         if sel:
@@ -111,7 +118,7 @@ class Ctx:
         exc = EXCEPTIONS.get((self.spec.rid, construct))
         p = frozenset(props) if props is not None else frozenset(self.spec.default_props)
         self.obs.append(
-            Ob(self.spec.rid, construct, loc, bool(ok) or exc is not None, msg, key, p, nontrivial, exc if not ok else None)
+            Ob(self.spec.rid, construct, loc, bool(ok) or exc is not None, msg, key, p, nontrivial, exc if not ok else None, bool(firm))
         )
         return bool(ok)
 
@@ -233,6 +240,7 @@ def run_property(repo: Repo, prop: str, tier: str, only_rules=None) -> Result:
             res.errors.append(f"[{s.rid}] internal: {type(e).__name__}: {e} ({os.path.basename(tb.filename)}:{tb.lineno})")
         mine = [o for o in ctx.obs if prop in o.props]
         viol = known_n = exc_n = 0
+        undecided = []
         for o in mine:
             if o.exception:
                 exc_n += 1
@@ -241,9 +249,28 @@ def run_property(repo: Repo, prop: str, tier: str, only_rules=None) -> Result:
                 if k is not None:
                     res.known.append((o, k))
                     known_n += 1
-                else:
-                    res.violations.append(o)
-                    viol += 1
+                    continue
+                # A shape rule that does not find what it looks for in f decides nothing when
+                # f now hands work to a private helper the rule was never confirmed against
+                # (sa/reference_calls.json): the thing may simply have moved there.
+                if s.rid not in FOLLOWS_CALLS and not o.firm:
+                    from .mkreference import new_private_callees
+
+                    fq = o.construct.split(":", 1)[0]
+                    new = new_private_callees(repo, fq)
+                    if new:
+                        undecided.append(o)
+                        head = f"[{s.rid}] not decided for {fq.rsplit('.', 1)[-1]}: it now delegates to private helper(s) {', '.join(new)} not in the reference call table — clause(s): "
+                        prev = [i for i, e_ in enumerate(res.errors) if e_.startswith(head)]
+                        if prev:
+                            if res.errors[prev[0]].count(" | ") < 2:
+                                res.errors[prev[0]] += " | " + o.msg[:70]
+                        else:
+                            res.errors.append(head + o.msg[:110])
+                        continue
+                res.violations.append(o)
+                viol += 1
+        mine = [o for o in mine if o not in undecided]
         res.obs += mine
         res.notes += [f"[{s.rid}] {n}" for n in ctx.notes]
         res.rules_run[s.rid] = {
